@@ -5,9 +5,52 @@ from props.ecommon import mix
 PROJ = {"pool": ["ac", "ar", "capc", "capr"], "A": [0, 1, 2], "S": [0, 1, 2], "D": True}
 
 
+def fractional_amounts(ctx):
+    """CPU amounts need not be whole numbers (an external scheduler may ask for 1.5 CPUs).  The model counts whole CPUs, so this is checked against the
+    property's own equation instead: at every tick boundary free + running + suspending = capacity for CPU and RAM (binary fractions: exact in floats),
+    and everything is free again when everything has ended"""
+    import random
+    from fractions import Fraction as F
+    from eudoxia.executor import Executor
+    from eudoxia.executor.assignment import Assignment, Suspend
+    from eudoxia.workload.pipeline import Pipeline, Segment
+    from eudoxia.utils import Priority
+    rng = random.Random(ctx.seed + 77)
+    for case in range(6 if ctx.quick() else 60):
+        tps = rng.choice([1, 2, 4])
+        ex = Executor(1, 8, 64, tps, allow_memory_overcommit=False, multi_operator_containers=True)
+        pool = ex.pools[0]
+        pipes = []
+        for i in range(rng.randint(1, 3)):
+            pl = Pipeline(f"f{i}", Priority.BATCH_PIPELINE)
+            prev = None
+            for _ in range(rng.randint(1, 3)):
+                prev = pl.new_operator([prev] if prev else None)
+                prev.add_segment(Segment(baseline_cpu_seconds=rng.randint(1, 4) / tps, cpu_scaling="const", memory_gb=0.25, storage_read_gb=0))
+            pl.runtime_status()
+            pipes.append(pl)
+        asg = [Assignment(list(pl.values), rng.choice([0.5, 1.5, 1.25, 2.75, 1]), rng.choice([2.5, 4.25, 8]), pl.priority, 0, pl.pipeline_id) for pl in pipes]
+        sus = []
+        for t in range(40):
+            ex.run_one_tick(sus, asg if t == 0 else [])
+            sus = [Suspend(c.container_id, 0) for c in pool.active_containers if c.can_suspend_container() and rng.random() < 0.3]
+            held = sum(c.assignment.cpu for c in pool.active_containers + pool.suspending_containers)
+            heldr = sum(c.assignment.ram for c in pool.active_containers + pool.suspending_containers)
+            ctx.coverage["evaluations"] += 1
+            if pool.avail_cpu_pool + held != pool.max_cpu_pool or pool.avail_ram_pool + heldr != pool.max_ram_pool:
+                ctx.sit("mismatch_fractional_conservation")
+                ctx.violations.append({"what": f"containers with fractional amounts {[(a.cpu, a.ram) for a in asg]} at {tps} ticks/s: after tick {t} the pool has "
+                                               f"{pool.avail_cpu_pool} CPUs / {pool.avail_ram_pool} GB free and {held} CPUs / {heldr} GB allocated to running and suspending "
+                                               f"containers, of {pool.max_cpu_pool} CPUs / {pool.max_ram_pool} GB", "layer": "E",
+                                       "case": {"tps": tps, "amounts": [(a.cpu, a.ram) for a in asg], "tick": t}, "sig": {"clause": "conserved-fractional"}})
+                return
+        ctx.sit("fractional_amount_runs")
+
+
 def run(ctx):
     k = 1 if ctx.quick() else 8
     elayer.run_scenarios(ctx, "C03", mix(ctx, 60 * k, 50 * k, 40 * k, 20 * k, 0), PROJ)
+    fractional_amounts(ctx)
 
 
 def replay(ctx, rep):
